@@ -14,14 +14,15 @@ RULE = (
     "Inside a shard: line order (quick 3: identity, reversed, interleaved; thorough 6: plus two rotations and by-start) x exon set of "
     "every further transcript (quick: the first 6 options) x per transcript an extra line (none, CDS 1-9; thorough also start_codon "
     "2-3; for the very first transcript also a 'promoter' line with the gene's id but no transcript id: a level-2 child of its gene "
-    "only). The first gene's id contains a blank; the file name rotates over in.gtf/annot.gff/x.gff3/data.txt. Real create_db (identity "
-    "order: a file database, reopened first; else :memory:); checked: fmt is gtf, stored id set, columns of stored and derived "
-    "features, derived features retrievable, and every children/parents answer at levels 1, 2, None against a reference derivation (no "
-    "duplicates, no feature its own relative; explicit transcript as level-2 child of its gene accepted either way). Identity order "
-    "with default keys: a later update() adding a new gene must not raise or change earlier features; its extents, new-feature count "
-    "and children are checked. Part 'scale' (3 executions): a shuffled 2400-line GTF (400 genes x 3 transcripts x 2 exons) under 3 flag "
-    "settings; all 1200 transcript / 400 gene extents and the exon count are checked. Non-trivial = some transcript has >= 2 exons or "
-    "none, or lines are reordered, or explicit gene/transcript lines exist, or a flag/custom key is set; every scale execution."
+    "only). The first gene's id contains a blank; the file name rotates over in.gtf/annot.gff/x.gff3/data.txt. An empty file is "
+    "skipped. Real create_db (identity order: a file database, reopened first; else :memory:); checked: fmt is gtf, stored id set, "
+    "columns of stored and derived features, derived features retrievable, and every children/parents answer at levels 1, 2, None "
+    "against a reference derivation (no duplicates, no feature its own relative; explicit transcript as level-2 child of its gene "
+    "accepted either way). Identity order with default keys: a later update() adding a new gene must not raise or change earlier "
+    "features; its extents, new-feature count and children are checked. Part 'scale' (3 executions): a shuffled 2400-line GTF (400 "
+    "genes x 3 transcripts x 2 exons) under 3 flag settings; all 1200 transcript / 400 gene extents and the exon count are checked. "
+    "Non-trivial = some transcript has >= 2 exons or none, or lines are reordered, or explicit gene/transcript lines exist, or a "
+    "flag/custom key is set; every scale execution."
 )
 ASSUMPTIONS = [
     "all exons of a gene share seqid and strand; every exon / CDS line carries both ids; a transcript belongs to one gene",
